@@ -438,14 +438,26 @@ pub static mut EFFECT_GATE: Option<fn() -> bool> = None;
 
 /// Under Kani every access names the static directly (a pointer loaded back from a
 /// struct field makes CBMC treat each access as a byte-level update of the whole object).
+/// Handle on the model state.  Natively a raw pointer to the boxed model of this environment.  Under
+/// Kani a zero-sized token: a struct that carries a raw pointer is copied byte-wise when it is moved
+/// out of a `Result` (heed's API returns its transactions that way, and `?` moves them again), after
+/// which none of its fields - `write` in particular - is a constant for the symbolic executor any more,
+/// every read through a write transaction chooses between the pending and the committed tables
+/// symbolically, and nothing that follows can be evaluated (found with fold probes, DESIGN.md 8.2).
+#[cfg(kani)]
+#[derive(Clone, Copy)]
+pub struct MPtr;
+#[cfg(not(kani))]
+pub type MPtr = *mut Model;
+
 #[cfg(kani)]
 #[inline(always)]
-fn mref(_p: *mut Model) -> &'static mut Model {
+fn mref(_p: MPtr) -> &'static mut Model {
     unsafe { &mut *core::ptr::addr_of_mut!(THE_MODEL) }
 }
 #[cfg(not(kani))]
 #[inline(always)]
-fn mref(p: *mut Model) -> &'static mut Model {
+fn mref(p: MPtr) -> &'static mut Model {
     unsafe { &mut *p }
 }
 
@@ -469,6 +481,23 @@ pub mod verif {
     /// without an effective put / delete / clear / create changes nothing observable)
     pub fn mutating_commits(env: &Env) -> u64 {
         mref(env.m).mutating_commits
+    }
+    /// diagnostics (fold probes)
+    pub fn probe_is_pending(txn: &RoTxn<'_>, id: u8) -> bool {
+        let t = txn.tables_for(id) as *const Tables;
+        let m = mref(txn.m);
+        core::ptr::eq(t, &m.pending as *const Tables)
+    }
+    pub fn probe_write_flag(txn: &RoTxn<'_>) -> bool {
+        txn.write != 0
+    }
+    pub fn probe_used0(txn: &RoTxn<'_>, id: u8) -> bool {
+        let t = txn.tables_for(id);
+        t.ids.used[0]
+    }
+    pub fn probe_len_ids(txn: &RoTxn<'_>) -> u64 {
+        let t = txn.tables_for(1);
+        t.ids.len()
     }
 }
 
@@ -599,7 +628,7 @@ impl EnvOpenOptions {
             let m = core::ptr::addr_of_mut!(THE_MODEL);
             (*m).write_open = false;
             (*m).dirty = [false; NT];
-            Ok(Env { m, max_dbs: self.max_dbs })
+            Ok(Env { m: MPtr, max_dbs: self.max_dbs })
         }
         #[cfg(not(kani))]
         {
@@ -616,7 +645,7 @@ impl EnvOpenOptions {
 }
 
 pub struct Env {
-    m: *mut Model,
+    m: MPtr,
     max_dbs: u32,
 }
 unsafe impl Send for Env {}
@@ -640,7 +669,7 @@ impl EnvClosingEvent {
 impl Env {
     pub fn read_txn(&self) -> Result<RoTxn<'_>> {
         let commits = mref(self.m).commits;
-        Ok(RoTxn { m: self.m, write: false, version: commits, _p: PhantomData })
+        Ok(RoTxn { m: self.m, write: 0, version: commits, _p: PhantomData })
     }
     pub fn write_txn(&self) -> Result<RwTxn<'_>> {
         {
@@ -653,7 +682,7 @@ impl Env {
             m.dirty = [false; NT];
             m.created_pending = m.created;
         }
-        Ok(RwTxn { txn: RoTxn { m: self.m, write: true, version: 0, _p: PhantomData }, done: false })
+        Ok(RwTxn { txn: RoTxn { m: self.m, write: 1, version: 0, _p: PhantomData }, done: 0 })
     }
     pub fn database_options<'n>(&self) -> DatabaseOpenOptions<'_, 'n, Unspecified, Unspecified> {
         DatabaseOpenOptions { env: self, name: None, _p: PhantomData }
@@ -767,8 +796,14 @@ impl<'e, 'n, KC, DC> DatabaseOpenOptions<'e, 'n, KC, DC> {
 // transactions
 // ---------------------------------------------------------------------------
 pub struct RoTxn<'e> {
-    m: *mut Model,
-    write: bool,
+    m: MPtr,
+    /// 0 = read transaction, 1 = the write transaction.  A `u8`, not a `bool`: heed's API hands transactions
+    /// out inside a `Result`, and rustc stores that `Result`'s discriminant in the niche of a `bool`
+    /// field - after which the field is not a constant for the symbolic executor any more, every read
+    /// through the write transaction picks pending or committed tables symbolically, and nothing that
+    /// follows can be evaluated (found with fold probes, DESIGN.md 8.2).  No `bool`, reference or
+    /// `NonNull` field may appear in a struct this model returns inside a `Result`.
+    write: u8,
     version: u64,
     _p: PhantomData<&'e Env>,
 }
@@ -777,7 +812,7 @@ impl<'e> RoTxn<'e> {
     #[inline]
     fn tables_for(&self, table: u8) -> &Tables {
         let m = mref(self.m);
-        if self.write {
+        if self.write != 0 {
             if m.dirty[table as usize] { &m.pending } else { &m.committed }
         } else {
             if m.commits != self.version {
@@ -793,7 +828,7 @@ impl<'e> RoTxn<'e> {
 
 pub struct RwTxn<'e> {
     txn: RoTxn<'e>,
-    done: bool,
+    done: u8,
 }
 
 impl<'e> Deref for RwTxn<'e> {
@@ -841,20 +876,20 @@ impl<'e> RwTxn<'e> {
         }
         m.dirty = [false; NT];
         m.write_open = false;
-        self.done = true;
+        self.done = 1;
         Ok(())
     }
     pub fn abort(mut self) {
         let m = mref(self.txn.m);
         m.dirty = [false; NT];
         m.write_open = false;
-        self.done = true;
+        self.done = 1;
     }
 }
 
 impl<'e> Drop for RwTxn<'e> {
     fn drop(&mut self) {
-        if !self.done {
+        if self.done == 0 {
             let m = mref(self.txn.m);
             m.dirty = [false; NT];
             m.write_open = false;
@@ -964,7 +999,7 @@ impl<KC, DC> Database<KC, DC> {
         if self.id == 0 {
             // LMDB keeps one record per named database in the unnamed one
             let m = mref(txn.m);
-            let created = if txn.write { &m.created_pending } else { &m.created };
+            let created = if txn.write != 0 { &m.created_pending } else { &m.created };
             let mut i = 1;
             while i < NT {
                 if created[i] {
@@ -1019,18 +1054,24 @@ impl<KC, DC> Database<KC, DC> {
 
 pub struct RoRange<'txn, KC, DC> {
     id: u8,
-    tables: &'txn Tables,
+    /// which copy of the tables this scan reads, fixed when the scan starts: 1 = pending (the scan was
+    /// started through the write transaction and its table is dirty), 0 = committed.  Not a reference
+    /// and not a `bool` (see `RoTxn::write`): the range is handed out inside a `Result`.
+    pending: u8,
+    m: MPtr,
     lo: KeyBound,
     hi: KeyBound,
     after: KeyBound,
-    _p: PhantomData<(KC, DC)>,
+    _p: PhantomData<(&'txn (), KC, DC)>,
 }
 pub type RoIter<'txn, KC, DC> = RoRange<'txn, KC, DC>;
 
 impl<'txn, KC, DC> RoRange<'txn, KC, DC> {
     fn new(id: u8, txn: &'txn RoTxn<'_>, lo: KeyBound, hi: KeyBound) -> Self {
-        let tables: &'txn Tables = unsafe { &*(txn.tables_for(id) as *const Tables) };
-        RoRange { id, tables, lo, hi, after: KeyBound::NONE, _p: PhantomData }
+        let m = mref(txn.m);
+        let t = txn.tables_for(id) as *const Tables;
+        let pending = if core::ptr::eq(t, &m.pending as *const Tables) { 1 } else { 0 };
+        RoRange { id, pending, m: txn.m, lo, hi, after: KeyBound::NONE, _p: PhantomData }
     }
 }
 
@@ -1041,7 +1082,8 @@ where
 {
     type Item = Result<(KC::DItem, DC::DItem)>;
     fn next(&mut self) -> Option<Self::Item> {
-        let tables = self.tables;
+        let m = mref(self.m);
+        let tables: &'txn Tables = unsafe { &*((if self.pending != 0 { &m.pending } else { &m.committed }) as *const Tables) };
         let (lo, hi, after) = (&self.lo, &self.hi, &self.after);
         let found: Option<(&'txn [u8], &'txn [u8])> = on_table!(tables, self.id, |t| {
             match t.next_in_order(lo, hi, after) {
